@@ -1345,6 +1345,7 @@ fn parent() -> i32 {
         coverage: json!({
             "evaluations": evaluations,
             "distinct_nontrivial": distinct.len(),
+            "run_digest": format!("{:016x}", distinct.iter().fold(0u64, |a, h| a ^ vcore::mix(*h))),
             "rule": "evaluation = one execution of compile (in-process through the fs seam), llw (real binary) or lelwel::build (helper process) on one configuration of the table check x format x graph x verbosity x short x output{., existing dir, missing dir, a file} x pre-state{none, lexer.rs, parser.rs, both} x stale{generated.rs, parser.gv} x verdict{clean, warnings only, syntax error, semantic error, missing, directory, invalid UTF-8} x path style, fault-free; then every single fault (each op index x each error kind / short write) on one representative per op-log shape class, and (thorough) seeded pairs. Non-trivial = touched the file system, changed a file or did not succeed; distinct = different (runner, configuration without grammar, op-log shape incl. per-op results, fault plan, result, changed-file set).",
             "exhaustive": true,
             "samples": samples,
